@@ -1,4 +1,15 @@
-//! Kani harnesses over the public API of coap-lite (path dependency on /repo).
-#![allow(dead_code)]
+//! Kani harnesses over coap-lite (path dependency on /repo).  Contracts are written as
+//! assume/assert obligations over fully symbolic inputs.  A harness whose loops are bounded by an
+//! operand width (with unwinding assertions on) is a complete proof over its input domain; the
+//! others are bounded stand-ins and are labelled so in checks.py.
+#![allow(dead_code, unused_imports)]
+#[cfg(kani)]
+mod util;
 #[cfg(kani)]
 mod tables;
+#[cfg(kani)]
+mod uints;
+#[cfg(kani)]
+mod block;
+#[cfg(kani)]
+mod negotiate;
